@@ -82,7 +82,7 @@ def check(run, driver):
     plans = []
     for info in ESTIMATORS:
         cheap = info in ("gaussian", "knn", "kde")
-        m = (400 if cheap else 60) if thorough else (120 if cheap else (30 if info == "geometric_knn" else 16))
+        m = (1000 if cheap else 120) if thorough else (300 if cheap else (48 if info == "geometric_knn" else 32))
         kind = "count" if info == "poisson" else "continuous"
         alpha, n = (0.05, 19) if not thorough else (0.05, 39)
         if info == "poisson":
@@ -120,7 +120,7 @@ def check(run, driver):
     for info in (["gaussian", "knn", "kde"] if not thorough else ESTIMATORS):
         for method in ("standard", "alternative"):
             cheap = info in ("gaussian", "knn", "kde")
-            m = (200 if cheap else 24) if thorough else (64 if info != "kde" else 32)
+            m = (400 if cheap else 32) if thorough else (128 if info != "kde" else 64)
             dplans.append((info, method, m))
     dtasks = []
     for info, method, m in dplans:
